@@ -3,7 +3,7 @@ from .common import fams, generic_replay, PATTERNS
 
 
 def run(tier):
-    return scans.scan_check("C02", ("RH.",), {"RH"}, fams({'RH'}, extra=('EHEP','EPpiston','Mader','BBNoh','SDRZ','RiemannGen','RiemannJWL','RMTV','Guderley')), tier, require_patterns=PATTERNS)
+    return scans.scan_check("C02", ("RH.", "GRAM."), {"RH"}, fams({'RH'}, extra=('EHEP','EPpiston','Mader','BBNoh','SDRZ','RiemannGen','RiemannJWL','RMTV','Guderley')), tier, require_patterns=PATTERNS)
 
 
 def replay(path):
